@@ -280,6 +280,47 @@ def several_tables(ctx: Ctx, pool, rng):
                 ctx.nontrivial(("several", k, ti, r, c))
 
 
+def repeated_texts(ctx: Ctx, rng):
+    """Texts that repeat across tables and across the ends of a table - the last text of one table is the first text of
+    the next, the first and last text of a table are equal - and the same Document saved twice (string keys are
+    re-assigned at every save)."""
+    from numbers_parser import Document
+    words = ["total", "north", "south", "gamma", "z", "delta", "alpha", "beta", "", "Total"]
+    for k in range(4 if ctx.quick else 40):
+        doc = Document(num_rows=3, num_cols=3)
+        tabs = [doc.sheets[0].tables[0], doc.sheets[0].add_table(f"R{k}", num_rows=4, num_cols=3)]
+        if k % 2:
+            doc.add_sheet(f"RS{k}", "RT", num_rows=3, num_cols=3)
+            tabs.append(doc.sheets[1].tables[0])
+        want = [dict() for _ in tabs]
+        link = rng.choice(words[:4])
+        for ti, t in enumerate(tabs):
+            cells = [(r, c) for r in range(t.num_rows) for c in range(t.num_cols)]
+            chosen = sorted(rng.sample(cells, rng.randrange(3, len(cells))))
+            for j, (r, c) in enumerate(chosen):
+                v = link if j in (0, len(chosen) - 1) else (rng.choice(words) if rng.random() < 0.8 else float(j))
+                want[ti][(r, c)] = v
+                t.write(r, c, v)
+        for stage in ("first save", "second save of the same document"):
+            path = ctx.tmp / f"repeated_{k}.numbers"
+            case = {"doc": f"repeated-texts {k}", "stage": stage}
+            try:
+                doc.save(path)
+                d = Document(path)
+                back = [t for sh in d.sheets for t in sh.tables]
+            except Exception as e:  # noqa: BLE001
+                ctx.oracle_fail("save-reopen-raises", case, f"{type(e).__name__}: {e}")
+                break
+            for ti, (t, w) in enumerate(zip(back, want)):
+                for (r, c), v in w.items():
+                    ctx.count("oracle-write-save-reopen")
+                    got = t.cell(r, c).value
+                    if not same_value(v, got):
+                        ctx.oracle_fail(f"value-changed-among-repeated-texts:{type(v).__name__}", dict(case, table=ti, pos=[r, c], value=repr(v)),
+                                        f"{stage}: table #{ti} ({t.name}) ({r},{c}): wrote {v!r}, read {got!r}")
+                    ctx.nontrivial(("repeated", k, ti, r, c))
+
+
 def retyped_cells(ctx: Ctx, rng):
     """A cell written twice in one session with values that compare equal in Python but are of different types (True == 1
     == 1.0, False == 0, "" vs nothing): the reopened cell has the type and value of the LAST write."""
@@ -490,6 +531,7 @@ def run(ctx: Ctx) -> int:
     # saving may be repeated: write, save, write more, save again, reopen the second file
     two_stage(ctx, pool, rng)
     several_tables(ctx, pool, rng)
+    repeated_texts(ctx, rng)
     default_fills(ctx, pool, rng)
     retyped_cells(ctx, rng)
     # a document holding the whole pool in one column (all types, many tiles when thorough)
